@@ -392,6 +392,12 @@ func (t *parser) listItem(list []interface{}, i, nestedNameLevel int) ([]interfa
 		}
 	case last == '[':
 		// now we have a nested list. Read the index and handle.
+		// A nested list is a level of nesting like a nested name: without the bound the
+		// recursion below is as deep as the input is long.
+		nestedNameLevel++
+		if nestedNameLevel > MaxNestedNameLevel {
+			return list, fmt.Errorf("value name nested level is greater than maximum supported nested level of %d", MaxNestedNameLevel)
+		}
 		nextI, err := t.keyIndex()
 		if err != nil {
 			return list, errors.Wrap(err, "error parsing index")
@@ -421,6 +427,11 @@ func (t *parser) listItem(list []interface{}, i, nestedNameLevel int) ([]interfa
 		return setIndex(list, i, list2)
 	case last == '.':
 		// We have a nested object. Send to t.key
+		// The '.' was read here, so key() does not count this level.
+		nestedNameLevel++
+		if nestedNameLevel > MaxNestedNameLevel {
+			return list, fmt.Errorf("value name nested level is greater than maximum supported nested level of %d", MaxNestedNameLevel)
+		}
 		inner := map[string]interface{}{}
 		if len(list) > i {
 			var ok bool
